@@ -141,7 +141,7 @@ def run_cases(ck: Check, n_refine: int, n_storage: int):
             key_serial = [(t, em_key(e)) for t, e in zip(serial.times, serial.emulsions)]
             case = {"kind": "storage", "frames": nfr, "settings": {a: repr(b) for a, b in kw.items()}}
             ck.case(("storage", k, tuple(f.data.tobytes() for f in fields)))
-            for procs, kind in [(2, "reversed"), ("auto", "random"), (3, "rotated")]:
+            for procs, kind, prog in [(2, "reversed", None), ("auto", "random", True), (3, "rotated", False), (2, "random", True)]:
                 delays = delay_plan(rng, nfr, kind)
                 _DELAYS.clear()
                 for i, (f, dl) in enumerate(zip(fields, delays)):
@@ -149,17 +149,17 @@ def run_cases(ck: Check, n_refine: int, n_storage: int):
                 open(_LOG, "w").close()
                 ia.locate_droplets = delayed_locate
                 try:
-                    par = EmulsionTimeCourse.from_storage(storage, num_processes=procs, progress=False, **kw)
+                    par = EmulsionTimeCourse.from_storage(storage, num_processes=procs, progress=prog, **kw)
                 finally:
                     ia.locate_droplets = _orig_locate
                 order = [int(l.split()[0]) for l in open(_LOG).read().split("\n") if l]
                 ck.count("pool_runs")
-                ck.case(("storage-run", k, str(procs), kind, tuple(order)))
+                ck.case(("storage-run", k, str(procs), kind, str(prog), tuple(order)))
                 if order != sorted(order):
                     ck.count("runs_with_out_of_order_completion")
                 key_par = [(t, em_key(e)) for t, e in zip(par.times, par.emulsions)]
                 if key_par != key_serial:
-                    ck.fail(f"from_storage num_processes={procs}, completion order {order}: differs from the serial result", {"check": "storage_par_eq_ser", "num_processes": str(procs)}, {**case, "num_processes": procs, "completion_order": order})
+                    ck.fail(f"from_storage num_processes={procs}, completion order {order}: differs from the serial result", {"check": "storage_par_eq_ser", "num_processes": str(procs), "progress": str(prog)}, {**case, "num_processes": procs, "progress": prog, "completion_order": order})
                 if sorted(order) == list(range(nfr)):
                     reqs.append(f"c15 map {nfr} " + " ".join(map(str, order)))
                     expect.append(({**case, "completion_order": order}, "ok " + " ".join(str(i) for i in range(nfr))))
